@@ -1,10 +1,15 @@
 (** C02 — file objects have exact byte semantics.  Proved: the cursor arithmetic of FatIO.seek (GENERATED
     code) represents the byte position exactly, with the documented end-of-cluster case; writes through one
-    chain leave every FAT entry of other chains untouched.  The refinement of whole handle programs to the
-    byte-buffer reference (C02_refine) is NOT proved: it is checked on the implementation after every call
-    and tied to the model's handle layer by results and write logs. *)
-From Coq Require Import ZArith List Bool Sorted.
-From PyFatV Require Import Base.Bytes Base.PyEnv Gen.Pure Model.Codec Model.Dir Model.FS Proofs.FatTable Proofs.Geometry.
+    chain leave every FAT entry of other chains untouched; and the data path itself, at the level of the bytes
+    a cluster chain holds: writing [b] at a cursor (cluster index k, offset co) inside a file is Python's
+    data[pos:pos+len(b)] = b on the chain's bytes — the chain grows by exactly the free clusters the allocator hands
+    out, every byte before pos and behind pos+len(b) and every cluster of every other chain keep their contents — and
+    reading through the chain returns its bytes from the offset.  What is NOT proved is the glue above it (C02_refine:
+    the directory entry's size / first cluster and the handle's cursor after each call of whole handle programs);
+    that is checked on the implementation after every call against the byte-buffer reference and tied to the model's
+    handle layer by results and write logs. *)
+From Coq Require Import ZArith List Bool Sorted FMapPositive.
+From PyFatV Require Import Base.Bytes Base.PyEnv Gen.Pure Model.Codec Model.Dir Model.FS Proofs.FatTable Proofs.Geometry Proofs.Device Proofs.DirCodec Proofs.DirState Proofs.Chains Proofs.FileData Properties.C03.
 Import ListNotations.
 Open Scope Z_scope.
 
@@ -30,4 +35,37 @@ Theorem C02_frame_fat : forall s size cs s' j,
   nthZ (s_fat s') j = nthZ (s_fat s) j.
 Proof. exact allocate_frame. Qed.
 Print Assumptions C02_frame_fat.
+Theorem C02_write_at_cursor : forall s c0 ch k co b s',
+  dev_ok (s_dev s) -> geom_ok s -> vt (ft s) -> 0 <= s_hint s -> vol_ok s ->
+  chain s c0 = (ch, true) -> Forall (inside s) ch ->
+  (k < length ch)%nat -> (co <= Z.to_nat (bpc s))%nat ->
+  let cpos := nth k ch 0 in
+  write_data_to_cluster s (firstn co (rd s (cluster_addr s cpos) (bpc s)) ++ b) cpos false = Ok s' ->
+  exists new,
+    chain s' c0 = (ch ++ new, true) /\ Forall (inside s) (ch ++ new) /\
+    Forall (fun x => nthZ (s_fat s) x = 0) new /\
+    let W := read_chain s (ch ++ new) in
+    let pos := (k * Z.to_nat (bpc s) + co)%nat in
+    read_chain s' (ch ++ new) = firstn pos W ++ b ++ skipn (pos + length b) W /\
+    (forall c', 2 <= c' -> ~ In c' (ch ++ new) -> rd s' (cluster_addr s c') (bpc s) = rd s (cluster_addr s c') (bpc s)).
+Proof. exact write_at_cursor. Qed.
+Print Assumptions C02_write_at_cursor.
+Theorem C02_read_chain : forall cs s coff size fuel,
+  dev_ok (s_dev s) -> geom_ok s -> Forall (inside s) cs ->
+  0 <= coff <= bpc s -> coff + size <= lenZ cs * bpc s -> (length cs < fuel)%nat ->
+  read_chunks s cs coff size fuel = Ok (firstn (Z.to_nat size) (skipn (Z.to_nat coff) (read_chain s cs))).
+Proof. exact read_chunks_spec. Qed.
+Print Assumptions C02_read_chain.
+(** non-vacuity: the chain 3 -> 5 of the example volume, 600 bytes written at cluster index 1, offset 100: cluster 6
+    (the first free one) is appended, and the bytes come back *)
+Definition ex_b : list Z := repeat 7 600.
+Definition ex_w : st :=
+  match write_data_to_cluster ex_st2 (firstn 100 (rd ex_st2 (cluster_addr ex_st2 5) (bpc ex_st2)) ++ ex_b) 5 false with Ok s => s | Err _ => ex_st2 end.
+Example C02_cursor_write_example :
+  chain ex_st2 3 = ([3; 5], true) /\
+  write_data_to_cluster ex_st2 (firstn 100 (rd ex_st2 (cluster_addr ex_st2 5) (bpc ex_st2)) ++ ex_b) 5 false = Ok ex_w /\
+  chain ex_w 3 = ([3; 5; 6], true) /\
+  read_chunks ex_w [3; 5; 6] 100 600 4 = Ok (repeat 0 512 ++ repeat 7 88) /\
+  firstn 600 (skipn 612 (read_chain ex_w [3; 5; 6])) = ex_b.
+Proof. vm_compute. repeat split; reflexivity. Qed.
 (* C02_refine (not proved): results, positions and contents of every handle program equal the reference buffer's. *)
